@@ -65,6 +65,9 @@ impl Check for IrsCheck {
         }
         (cfg, steps)
     }
+    fn probes(&self, _prop: &str) -> std::vec::Vec<&'static str> {
+        vec!["probe.country_limit_reached", "probe.identity_recovered"]
+    }
     fn dup_ok(&self, _s: &Step) -> bool {
         true
     }
